@@ -250,8 +250,10 @@ func (tree *Tree[T]) Handler(ctx *types.Context, method string) (types.Node, T, 
 	if node == nil || node.size() == 0 {
 		return nil, tree.notFound, false
 	}
-	if h, exists := node.handlers[method]; exists {
-		return node, h, true
+	if method != methodNotAllowed { // 405 的处理方法也保存在 handlers 中，不能当作请求方法被匹配。
+		if h, exists := node.handlers[method]; exists {
+			return node, h, true
+		}
 	}
 	return node, node.handlers[methodNotAllowed], false
 }
